@@ -256,7 +256,9 @@ CLAIMED["C10"] = dict(
          "with bit 30 set (C10_tokens_distinct, C10_new_token_fresh); handling a queued datagram produces message events only for the "
          "entry of the connected pool at that address and with its identity, a connect event only when the temp-pool entry's "
          "_recv_datagram called _onConnect on a CHALLENGE_RESP-typed datagram (which by C02 opened under its key and carries its token), "
-         "never a disconnect (C10_item_events); the shutdown sweep gives every connected client exactly one disconnect and ends with "
+         "never a disconnect (C10_item_events); a connected client that is due when the sweep starts - closed by the handler or the peer, or "
+         "silent for connection_timeout - is out of the pool and reported by the end of that iteration (C10_due_client_dropped), and an "
+         "update handler that disconnects everybody ends the round in that iteration (C10_kick_ends_the_round); the shutdown sweep gives every connected client exactly one disconnect and ends with "
          "shutdown. Over WHOLE RUNS (any number of iterations, batches, handler behaviours, clocks, random streams, from an empty "
          "server; C10_lifecycle_whole_run, C10_lifecycle_with_shutdown, C10_connect_and_disconnect_once): the handler events read in order "
          "are legal - connect only for an identity never seen before, message/disconnect only for an identity between its connect and its "
